@@ -68,13 +68,12 @@ ASSUMPTIONS = [
     "P(Y|do(X)) in every compatible model) are proved for inputs whose source domains DECLARE no experiment; 'no experiment "
     "is usable although some are declared' is covered by trso_sound for the denotation but not by a verdict theorem (the "
     "verdict is compared with the real identify_outcomes on every such case)",
-    "trso_no_internal_error: proved for inputs whose source domains declare no experiment "
-    "(trso_no_internal_error_partial) and, for ALL validated inputs, up to one raise site "
-    "(trso_only_activate_error_partial: the only error that can remain is the NotImplementedError that "
-    "activate_domain_and_interventions raises on One(); no KeyError / NetworkX error / RuntimeError / ZeroDivisionError / "
-    "TypeError / AttributeError / ValueError / RecursionError: the budget Query.fuel provably exceeds a decreasing "
-    "measure). OPEN: that the estimand found inside a source domain never contains One(). Hypotheses: graph well-formed "
-    "and acyclic, node names below 100 (the harness's name table; selection nodes are 200 + v), Y non-empty",
+    "trso_no_internal_error (last sentence) is PROVED for the Lean model for ALL validated inputs (Props/C05 "
+    "trso_no_internal_error: identify_target_outcomes returns an estimand or 'no estimand', no exception of any kind, in "
+    "particular not the NotImplementedError of activate_domain_and_interventions on One(): the estimand of a run inside "
+    "a source domain contains no One() - shown by following the run in the coin family). Hypotheses: graph well-formed and "
+    "acyclic, node names below 100 (the harness's name table; selection nodes are 200 + v), Y non-empty, separation test = "
+    "the model of are_d_separated",
     "the theorems about `are_d_separated` used for the phase after line 6 are about the model Trso.dSeparated "
     "(moralisation test), tied to the Python by the `separated` helper correspondence",
     "the rule placing selection nodes, (De(Z_i) - W_i) u (C(W_i) - An(W_i) in G[bar Z_i]), is taken from the paper as "
@@ -890,8 +889,8 @@ import atexit  # noqa: E402
 atexit.register(_report)
 
 MANIFEST = {
-    "text": ("Partial proof. Lean theorems about the executable model of transport.py (Y0.Model.Trso / TrDsl, tied to the code "
-             "by the correspondence check on every run; 25 theorems in Props/C05 + 19 in Props/C06Transport): "
+    "text": ("Proof (for the executable model). Lean theorems about the executable model of transport.py (Y0.Model.Trso / TrDsl, tied to the code "
+             "by the correspondence check on every run; 27 theorems in Props/C05 + 19 in Props/C06Transport): "
              "(0) SOUNDNESS (trso_sound, full strength): whenever identify_target_outcomes returns an estimand, its value in "
              "every family of positive semi-Markovian models compatible with the derived selection diagrams, with pi* leaves "
              "read in the target model and PP[d](.. @ z) leaves read in the model of domain d under do(z), is the target P*(y|do(x)) "
@@ -905,10 +904,12 @@ MANIFEST = {
              "(1) totality and error taxonomy - every outcome of the recursion is an estimand, 'no estimand' or an INTERNAL "
              "error (trsoF_error_internal); identify_target_outcomes raises the documented ValueError exactly on invalid "
              "input (identify_invalid_iff, identify_trichotomy); "
-             "(1b) 'never fails other than by no estimand': PROVED for every validated input whose source domains declare no "
-             "experiment (trso_no_internal_error_partial), and for ALL validated inputs up to one raise site "
-             "(trso_only_activate_error_partial): the only exception that can remain is the NotImplementedError of "
-             "activate_domain_and_interventions on One(); every look-up, ancestor computation, separation test, "
+             "(1b) 'never fails other than by no estimand': PROVED for ALL validated inputs (trso_no_internal_error): no exception "
+             "of any kind. Intermediate results: trso_no_internal_error_partial (no declared experiment, any separation test) and "
+             "trso_only_activate_error_partial (the only exception that could remain is the NotImplementedError of "
+             "activate_domain_and_interventions on One()); that one is excluded by a shape invariant of source-domain runs "
+             "(no One(), no Sum over all children of a joint, no fraction with parts of equal value) proved with the values the "
+             "coin family gives every sub-expression; every look-up, ancestor computation, separation test, "
              "topological sort, index and expression operator succeeds, and the recursion budget exceeds a lexicographic "
              "measure that decreases at every call (invariants: node sets preserved, selection nodes parentless, after "
              "line 6 every child of a selection node is a target intervention - from the positive separation test); "
@@ -924,8 +925,8 @@ MANIFEST = {
              "same non-empty subscript set, a subset of that domain's declared experiments; no leaf and no Sum range mentions "
              "a selection node; without declared experiments only target terms occur (trso_no_domains_target_only); "
              "(4) semantics - Sum.safe denotes the iterated sum and line 1 is marginalisation of the carried distribution "
-             "(den_sumSafe, line1_den). NOT proved (stated as OPEN in Props/C05.lean): that "
-             "activate never meets One() (the last unexcluded exception). All clauses are also decided on every run by the correspondence plus the "
+             "(den_sumSafe, line1_den). Left partial: the VERDICT equivalence with ID is proved when no experiment is declared, "
+             "not for 'declared but none usable'. All clauses are also decided on every run by the correspondence plus the "
              "exact-rational multi-domain oracle, which evaluates every returned estimand at every value assignment on two "
              "random compatible families, by an independent re-computation of get_nodes_to_transport for every declared "
              "domain of every case, by comparison with identify_outcomes on every no-surrogate case, and by treating "
